@@ -105,7 +105,7 @@ package gomavlib
 //@ func (*endpointClient).provide returns (label, conn, err)
 //@   ghostlog (*gomavlib.endpointClient).connect, (*gomavlib.endpointClient).label
 //@   requires e != nil && e.ctx != nil
-//@   ensures  [channel-or-terminated] (err == nil) || (err == errTerminated && conn == nil)
+//@   ensures  [channel-or-terminated] (err == nil && conn != nil) || (err == errTerminated && conn == nil)
 //@   ensures  [delay-before-every-reconnect] old(e.first) ==> logCallee(0, "time.After") && logArgDuration(0, 0) == reconnectPeriod &&
 //@              (logIs(1, "recv", "time.After") || logIs(1, "recv", "ctx.Done"))
 //@   ensures  [first-connect-immediately] !old(e.first) ==> logCallee(0, "(*gomavlib.endpointClient).connect") && e.first
@@ -117,7 +117,7 @@ package gomavlib
 //@ func (*endpointSerial).provide returns (label, conn, err)
 //@   ghostlog (*gomavlib.endpointSerial).connect
 //@   requires e != nil && e.ctx != nil
-//@   ensures  [channel-or-terminated] (err == nil) || (err == errTerminated && conn == nil)
+//@   ensures  [channel-or-terminated] (err == nil && conn != nil) || (err == errTerminated && conn == nil)
 //@   ensures  [delay-before-every-reconnect] old(e.first) ==> logCallee(0, "time.After") && logArgDuration(0, 0) == reconnectPeriod &&
 //@              (logIs(1, "recv", "time.After") || logIs(1, "recv", "ctx.Done"))
 //@   ensures  [first-connect-immediately] !old(e.first) ==> logCallee(0, "(*gomavlib.endpointSerial).connect") && e.first
@@ -132,9 +132,9 @@ package gomavlib
 //@   modifies nothing
 
 //@ func (*endpointServer).provide returns (label, conn, err)
-//@   ghostlog net.Listener.Accept, timednetconn.New, fmt.Sprintf
+//@   ghostlog net.Listener.Accept, timednetconn.New+contract, fmt.Sprintf
 //@   requires e != nil && e.node != nil && e.listener != nil && e.conf != nil
-//@   ensures  [channel-or-terminated] (err == nil) || (err == errTerminated && conn == nil)
+//@   ensures  [channel-or-terminated] (err == nil && conn != nil) || (err == errTerminated && conn == nil)
 //@   ensures  [accept-error-waits-for-termination] logRetErr(0) != nil ==> logLen() == 2 && logIs(1, "recv", "terminate") && err == errTerminated
 //@   ensures  [every-peer-gets-a-timed-connection] logRetErr(0) == nil ==> err == nil && logCallee(logLen()-1, "timednetconn.New") &&
 //@              logArgDuration(logLen()-1, 0) == e.node.IdleTimeout && logArgDuration(logLen()-1, 1) == e.node.WriteTimeout
@@ -157,7 +157,7 @@ package gomavlib
 //@              (ch.node.OutVersion != V2 ==> ch.streamWriter.Version == streamwriter.V1)
 //@   ensures  [one-link-id-per-channel] err == nil ==> logLen() >= 1 && logCallee(0, "gomavlib.randomByte") && ch.streamWriter.SignatureLinkID == byte(logRetInt(0, 0))
 //@   ensures  [bad-config-refused] ch.node.OutSystemID < 1 || (ch.node.OutKey != nil && ch.node.OutVersion != V2) ==> err != nil
-//@   modifies *ch, ghost:log
+//@   modifies ch.frameWriter, ch.streamWriter, ch.ctx, ch.ctxCancel, ch.chWrite, ch.done, ghost:log
 
 //@ func (*channelProvider).run
 //@   ghostlog (*gomavlib.Node).newChannel, gomavlib.Endpoint.oneChannelAtAtime
@@ -171,7 +171,7 @@ package gomavlib
 
 //@ func (*endpointUDPBroadcast).provide returns (label, conn, err)
 //@   requires e != nil
-//@   ensures  (err == nil) || (err == errTerminated && conn == nil)
+//@   ensures  (err == nil && conn != nil) || (err == errTerminated && conn == nil)
 //@   modifies *e
 //@   trusted
 //@   assumes  the broadcast endpoint provides one channel and then waits for termination; its provide() is not verified here
@@ -272,13 +272,30 @@ package gomavlib
 //@ func (*Node).Initialize
 //@   ghostlog gomavlib.EndpointConf.init, (*gomavlib.channelProvider).initialize, (*gomavlib.channelProvider).start, (*gomavlib.channelProvider).close, (*gomavlib.nodeHeartbeat).initialize, (*gomavlib.nodeStreamRequest).initialize, (*gomavlib.Node).Initialize$1, (*dialect.ReadWriter).Initialize
 //@   requires n != nil
+//@   requires forall j int :: 0 <= j && j < len(n.Endpoints) ==> n.Endpoints[j] != nil
 //@   ensures  [bad-configuration-refused] len(old(n.Endpoints)) == 0 || old(n.OutVersion) == 0 || old(n.OutSystemID) < 1 ||
 //@              (old(n.OutKey) != nil && old(n.OutVersion) != V2) ==> err != nil
+//@   ensures  [refused-before-anything-starts] len(old(n.Endpoints)) == 0 || old(n.OutVersion) == 0 || old(n.OutSystemID) < 1 ||
+//@              (old(n.OutKey) != nil && old(n.OutVersion) != V2) ==> logLen() == 0
 //@   ensures  [component-id-defaults-to-1] err == nil ==> (old(n.OutComponentID) < 1 ==> n.OutComponentID == 1) &&
 //@              (old(n.OutComponentID) >= 1 ==> n.OutComponentID == old(n.OutComponentID))
 //@   ensures  [identity-and-keys-kept] err == nil ==> n.OutSystemID == old(n.OutSystemID) && n.OutVersion == old(n.OutVersion) &&
-//@              n.OutKey == old(n.OutKey) && n.InKey == old(n.InKey)
-//@   ensures  [dialect-codec-built-from-the-dialect] err == nil ==> ((n.dialectRW != nil) == (old(n.Dialect) != nil))
+//@              n.OutKey == old(n.OutKey) && n.InKey == old(n.InKey) && n.Dialect == old(n.Dialect)
+//@   ensures  [accepted-identity-is-valid] err == nil ==> n.OutSystemID >= 1 && n.OutComponentID >= 1 && n.OutVersion != 0 &&
+//@              (n.OutKey != nil ==> n.OutVersion == V2)
+//@   ensures  [dialect-codec-built-from-the-dialect] err == nil ==> ((n.dialectRW != nil) == (old(n.Dialect) != nil)) &&
+//@              (n.dialectRW != nil ==> n.dialectRW.Dialect == n.Dialect)
+//@   ensures  [timeouts-default] err == nil ==> (old(n.ReadTimeout) == 0 ==> n.ReadTimeout == 10*time.Second) && (old(n.ReadTimeout) != 0 ==> n.ReadTimeout == old(n.ReadTimeout)) &&
+//@              (old(n.WriteTimeout) == 0 ==> n.WriteTimeout == 10*time.Second) && (old(n.WriteTimeout) != 0 ==> n.WriteTimeout == old(n.WriteTimeout)) &&
+//@              (old(n.IdleTimeout) == 0 ==> n.IdleTimeout == 60*time.Second) && (old(n.IdleTimeout) != 0 ==> n.IdleTimeout == old(n.IdleTimeout))
+//@   ensures  [heartbeat-defaults] err == nil ==> (old(n.HeartbeatPeriod) == 0 ==> n.HeartbeatPeriod == 5*time.Second) &&
+//@              (old(n.HeartbeatPeriod) != 0 ==> n.HeartbeatPeriod == old(n.HeartbeatPeriod)) &&
+//@              (old(n.HeartbeatSystemType) == 0 ==> n.HeartbeatSystemType == 6) && (old(n.HeartbeatSystemType) != 0 ==> n.HeartbeatSystemType == old(n.HeartbeatSystemType)) &&
+//@              n.HeartbeatAutopilotType == old(n.HeartbeatAutopilotType) &&
+//@              (old(n.StreamRequestFrequency) == 0 ==> n.StreamRequestFrequency == 4) && (old(n.StreamRequestFrequency) != 0 ==> n.StreamRequestFrequency == old(n.StreamRequestFrequency))
+//@   ensures  [node-loop-state-ready] err == nil ==> n.channels != nil && n.channelProviders != nil && n.done != nil && n.chEvent != nil &&
+//@              n.terminate != nil && n.chNewChannel != nil && n.chCloseChannel != nil && n.chWriteTo != nil && n.chWriteAll != nil && n.chWriteExcept != nil
+//@   ensures  [node-loop-started-last] err == nil ==> logGo(logLen()-1, "(*gomavlib.Node).run")
 //@   canary   err != nil
 //@   canary   err == nil
 //@   modifies *n, ghost:log
